@@ -232,6 +232,19 @@ class Backend(ABC):
         ]
         return self.finalize(queries, output_format or self.default_format)
 
+    def _ensure_processing_pipeline(self, output_format: str | None) -> None:
+        """
+        Initialize processing pipeline if not already done or if it was initialized for another
+        output format (each output format can have its own pipeline).
+        """
+        if (
+            not hasattr(self, "last_processing_pipeline")
+            or self.last_processing_pipeline is None
+            or getattr(self, "_last_processing_pipeline_format", None)
+            not in (None, output_format or self.default_format)
+        ):
+            self.init_processing_pipeline(output_format)
+
     def convert_rule(
         self,
         rule: SigmaRule,
@@ -260,15 +273,7 @@ class Backend(ABC):
             # conversion. Otherwise correlation rules embed the stale query.
             rule.reset_conversion_result()
 
-            # Initialize processing pipeline if not already done or if it was initialized for
-            # another output format (each output format can have its own pipeline).
-            if (
-                not hasattr(self, "last_processing_pipeline")
-                or self.last_processing_pipeline is None
-                or getattr(self, "_last_processing_pipeline_format", None)
-                not in (None, output_format or self.default_format)
-            ):
-                self.init_processing_pipeline(output_format)
+            self._ensure_processing_pipeline(output_format)
 
             error_state = "applying processing pipeline on"
             self.last_processing_pipeline.apply(rule)  # 1. Apply transformations
@@ -718,6 +723,7 @@ class Backend(ABC):
                     rule.source,
                     f"Correlation method '{method}' is not supported by backend '{self.name}'.",
                 )
+            self._ensure_processing_pipeline(output_format)
             self.last_processing_pipeline.apply(rule)
 
             # Determine which conversion method to use based on type and condition type
